@@ -415,7 +415,7 @@ theorem signed_verifies (c : Cfg) (e : Ev) (signer : Bytes → Option Bytes) (p 
   have hp := parse_render _ hw
   obtain ⟨k1, k2⟩ := member_serialized (idOf e) (c.source.getD []) e.ty dv ctJSON (c.schema.getD []) tj (b64 u) mac hser hm1
   have hsan : sanitize (b64 u) = b64 u := sanitize_ascii _ (b64_ascii u)
-  unfold verify
+  unfold verify verifyDoc
   rw [List.dropLast_concat, hp]
   simp only [image, k1, k2, hsan, hm2, b64dec_b64 u hb, hsig, beq_self_eq_true, if_true]
 
